@@ -129,42 +129,64 @@ fn main() {
         args: a[5..].to_vec(),
     };
     // a panic inside the implementation must not take the harness down silently
-    std::panic::set_hook(Box::new(|_| {}));
-    match a[1].as_str() {
-        "c02child" => {
-            c02::child(&a[4], &ctx.args[0]);
-            return;
+    // (quietly: the implementation's panics are caught case by case and reported as results; the last message is kept so
+    // that a panic nobody caught is reported with its text instead of an empty exit status 101)
+    static LAST_PANIC: std::sync::Mutex<Option<String>> = std::sync::Mutex::new(None);
+    std::panic::set_hook(Box::new(|info| {
+        let msg = info.payload().downcast_ref::<&str>().map(|s| s.to_string()).or_else(|| info.payload().downcast_ref::<String>().cloned()).unwrap_or_default();
+        let at = info.location().map(|l| format!("{}:{}", l.file(), l.line())).unwrap_or_default();
+        if let Ok(mut g) = LAST_PANIC.lock() {
+            *g = Some(format!("{} at {}", msg, at));
         }
-        "c01" => c01::run(&mut ctx),
-        "c02" => c02::run(&mut ctx),
-        "c03" => c03::run(&mut ctx),
-        "c04" => c04::run(&mut ctx),
-        "c04net" => c04net::run(&mut ctx),
-        "c05" => c05::run(&mut ctx),
-        "c06" => c06::run(&mut ctx),
-        "c07" => c07::run(&mut ctx),
-        "c08" => c08::run(&mut ctx),
-        "c09" => c09::run(&mut ctx),
-        "c10" => c10::run(&mut ctx),
-        "c11" => c11::run(&mut ctx),
-        "c12" => c12::run(&mut ctx),
-        "c13" => c13::run(&mut ctx),
-        "c14" => c14::run(&mut ctx),
-        "c15" => c15::run(&mut ctx),
-        "c16" => c16::run(&mut ctx),
-        "c17" => c17::run(&mut ctx),
-        "c18" => c18::run(&mut ctx),
-        "c18b" => c18b::run(&mut ctx),
-        "c19" => c19::run(&mut ctx),
-        "c20" => c20::run(&mut ctx),
-        d => {
-            eprintln!("unknown domain {}", d);
-            std::process::exit(2);
-        }
+    }));
+    if a[1] == "c02child" {
+        c02::child(&a[4], &ctx.args[0]);
+        return;
+    }
+    let domain = a[1].clone();
+    let ran = std::panic::catch_unwind(std::panic::AssertUnwindSafe(|| run_domain(&domain, &mut ctx)));
+    if ran.is_err() {
+        // a panic outside every per-case guard: usually the standard library refusing what the implementation did (a sort
+        // or an ordered container fed an order that is not total), sometimes a defect of the harness; either way it is
+        // reported with its message and counts as a failure of the run
+        let msg = LAST_PANIC.lock().ok().and_then(|g| g.clone()).unwrap_or_default();
+        ctx.fail("harness-panic", &format!("domain {}: {}", domain, msg.replace('\n', " ")));
     }
     let stats = std::mem::take(&mut ctx.stats);
     for (k, v) in stats {
         writeln!(ctx.out, "S {} {}", k, v).unwrap();
     }
     ctx.out.flush().unwrap();
+}
+
+fn run_domain(domain: &str, ctx: &mut Ctx) {
+    let ctx = &mut *ctx;
+    match domain {
+        "c01" => c01::run(ctx),
+        "c02" => c02::run(ctx),
+        "c03" => c03::run(ctx),
+        "c04" => c04::run(ctx),
+        "c04net" => c04net::run(ctx),
+        "c05" => c05::run(ctx),
+        "c06" => c06::run(ctx),
+        "c07" => c07::run(ctx),
+        "c08" => c08::run(ctx),
+        "c09" => c09::run(ctx),
+        "c10" => c10::run(ctx),
+        "c11" => c11::run(ctx),
+        "c12" => c12::run(ctx),
+        "c13" => c13::run(ctx),
+        "c14" => c14::run(ctx),
+        "c15" => c15::run(ctx),
+        "c16" => c16::run(ctx),
+        "c17" => c17::run(ctx),
+        "c18" => c18::run(ctx),
+        "c18b" => c18b::run(ctx),
+        "c19" => c19::run(ctx),
+        "c20" => c20::run(ctx),
+        d => {
+            eprintln!("unknown domain {}", d);
+            std::process::exit(2);
+        }
+    }
 }
